@@ -5,6 +5,7 @@ from harness.wire import Exn
 PROP = "C18"
 THEOREM_FILE = "Props/C18.v"
 EXTRA_THEOREM_FILES = ["Props/C18_src.v"]     # source tie: translated source = model (DESIGN 5.1b)
+EXTRA_THEOREM_FILES.append("Props/C18_code.v")   # CODC: the C18 theorems stated about the regenerated definitions
 RULE = ("classify_addr/net/range: every predicate at first-1, first, first+1, last-1, last, last+1 of every block of the "
         "independent spec tables AND of every row of the tables read from the current working tree; networks at EVERY "
         "prefix 0..width through first and last of every block (inside, equal, straddling either edge, spanning adjacent "
